@@ -5,22 +5,22 @@ CONSTANTS
   FetchMax = 2
   WideEvery = 0
   OffsetReset = "all"
-  LateResp = "drop"
+  LateResp = "accept"
   HWFallback = FALSE
-  ElectAlive = FALSE
-  AllowLag = FALSE
-  ElectDown = TRUE
-  MaxMsgs = 3
-  MaxElect = 2
-  MaxCrash = 2
-  MaxIsrOps = 2
+  ElectAlive = TRUE
+  AllowLag = TRUE
+  ElectDown = FALSE
+  MaxMsgs = 2
+  MaxElect = 1
+  MaxCrash = 0
+  MaxIsrOps = 0
   MaxRejects = 0
   Policies = {"ALL"}
   UseCheckpoint = FALSE
   MaxPause = 0
-  MaxHold = 0
+  MaxHold = 1
   Batch = 1
   IgnoreTaints = FALSE
-INVARIANTS NoBadAck_EpochGap
+INVARIANTS Inv_NoDivergence
 VIEW MCView
 CHECK_DEADLOCK FALSE
